@@ -92,6 +92,7 @@ type c03Case struct {
 	Op     Op     `json:"op"`
 	Class  string `json:"class"`
 	Before fw.Txt `json:"before"`
+	Cpus   int    `json:"cpus,omitempty"`
 }
 
 func c03FB(tier fw.Tier) docgen.FB { return docgen.FB{Shapes: c03Shapes(), Full: tier == fw.Thorough} }
@@ -107,7 +108,7 @@ func init() {
 	fw.Register(&fw.Check{
 		ID:    "C03",
 		Title: "Mutating commands touch only the lines they are defined to change",
-		Rule: "layouts = the formatting product (indentation per record {4,3,2 spaces, tab}^2 x LF/CRLF/mixed x blank-line runs before/between/after incl. whitespace-only lines x final newline yes/no x headline gap) over " + fmt.Sprint(len(c03Shapes())) + " shapes " +
+		Rule: "LONG = every shape at the end of a 14-record file x every operation x {2, 3, 4, 8} CPUs (parallel parser behind the edit); layouts = the formatting product (indentation per record {4,3,2 spaces, tab}^2 x LF/CRLF/mixed x blank-line runs before/between/after incl. whitespace-only lines x final newline yes/no x headline gap) over " + fmt.Sprint(len(c03Shapes())) + " shapes " +
 			"(1-3 records, target record first/middle/last/absent, multi-line summaries, open ranges present/absent and followed by other entries, pause entries; quick: every 13th layout, thorough: all) x " + fmt.Sprint(len(c03Ops())) + " operations " +
 			"(track 1-/3-line at 5 dates; start --time/-s/multi-line/--resume/now at 3 dates; stop plain, 1-, 3-line and continuation-only summaries; switch; pause with ticks, --no-tags, --extend; create at dates before/between/after/equal with --should and 2-line summary). " +
 			"A case = (layout, operation) where the command succeeds; distinct by hash(file, command line).",
@@ -116,12 +117,25 @@ func init() {
 			"a final line without line ending may gain one when lines are added after it; a blank-only file may be replaced wholesale",
 			"commands run as command structs on the real context (real file I/O); every 23rd through klog.Run",
 		},
-		Units: func(t fw.Tier) int { return (c03FB(t).Count()/c03Stride(t) + 399) / 400 },
+		Units: func(t fw.Tier) int { return (c03FB(t).Count()/c03Stride(t)+399)/400 + 1 },
 		RunUnit: func(c *fw.Ctx, unit int) {
 			fb := c03FB(c.Tier)
 			ops := c03Ops()
 			dir := filepath.Join(fw.Scratch(), "c03")
 			os.MkdirAll(dir, 0755)
+			if unit == (fb.Count()/c03Stride(c.Tier)+399)/400 {
+				// LONG: the same shapes at the end of a file of 14 records, edited with 2, 3, 4 and 8 CPUs (klog then reads
+				// the file with the parallel parser; the line that is edited must still be the right one)
+				for si := range c03Shapes() {
+					before := c03LongText(si)
+					for _, o := range ops {
+						for _, cpus := range []int{2, 3, 4, 8} {
+							c03OneCpus(c, dir, -1-si, before, o, cpus == 3, cpus)
+						}
+					}
+				}
+				return
+			}
 			n := 0
 			for k := unit * 400; k < (unit+1)*400; k++ {
 				li := k * c03Stride(c.Tier)
@@ -145,23 +159,44 @@ func init() {
 			}
 			dir := filepath.Join(fw.Scratch(), "c03")
 			os.MkdirAll(dir, 0755)
-			c03One(c, dir, cs.Layout, string(cs.Before), c03Op{cs.Op, cs.Class}, true)
+			cpus := cs.Cpus
+			if cpus == 0 {
+				cpus = 1
+			}
+			c03OneCpus(c, dir, cs.Layout, string(cs.Before), c03Op{cs.Op, cs.Class}, true, cpus)
 		},
 	})
 }
 
+// c03LongText: 12 filler records in front of shape si (default layout).
+func c03LongText(si int) string {
+	text := ""
+	for k := 0; k < 12; k++ {
+		text += fmt.Sprintf("1998-%02d-%02d\nfiller %d\n    1h #f\n    8:00 - 9:00\n\n", 1+k, 10+k, k)
+	}
+	d := c03Shapes()[si]
+	d.Layout = docgen.DefaultLayout
+	return text + d.Text()
+}
+
 func c03One(c *fw.Ctx, dir string, layout int, before string, o c03Op, viaCLI bool) {
+	c03OneCpus(c, dir, layout, before, o, viaCLI, 1)
+}
+
+func c03OneCpus(c *fw.Ctx, dir string, layout int, before string, o c03Op, viaCLI bool, cpus int) {
 	path := filepath.Join(dir, "t.klg")
 	os.WriteFile(path, []byte(before), 0644)
 	home := clidrv.Home("home")
+	env := c03Env
+	env.NumCpus = cpus
 	var r clidrv.Result
 	if viaCLI {
-		r = RunOp(home, path, o.op, c03Env)
+		r = RunOp(home, path, o.op, env)
 	} else {
-		r, _ = ExecOp(home, path, o.op, c03Env)
+		r, _ = ExecOp(home, path, o.op, env)
 	}
 	after := clidrv.ReadFile(path)
-	cs := c03Case{layout, o.op, o.class, fw.Txt(before)}
+	cs := c03Case{layout, o.op, o.class, fw.Txt(before), cpus}
 	if r.Panicked {
 		c.Violation("panic:"+o.op.Kind+":"+fw.PanicSite(r.Stack), cs, fmt.Sprintf("`klog %s` panicked: %v\n%s", o.op.String(), r.PanicVal, r.Stack))
 		return
@@ -174,7 +209,7 @@ func c03One(c *fw.Ctx, dir string, layout int, before string, o c03Op, viaCLI bo
 		return
 	}
 	c.Eval(1)
-	c.Nontrivial(fw.HashMix(fw.HashString(before), fw.HashString(o.op.String())))
+	c.Nontrivial(fw.HashMix(fw.HashString(before), fw.HashString(o.op.String())+uint64(cpus)))
 	c.Outcome("ok:" + o.class)
 	if why := c03Check(o.class, before, after); why != "" {
 		c.Violation("touches-other-lines:"+o.class, cs, fmt.Sprintf("`klog %s`: %s\nbefore: %q\nafter:  %q", o.op.String(), why, before, after))
